@@ -1,4 +1,5 @@
 // @parent src/buf/buf_impl.rs
+// @requires std
 // C17: misbehaving SAFE trait implementations cannot make the crate memory-unsafe.
 // Every crate entry point that consumes a user-supplied Buf / AsRef<[u8]> / Iterator and contains
 // (or leads into) an `unsafe` block is driven with an UNCONSTRAINED implementor: remaining() answers
